@@ -151,9 +151,9 @@ func (in *c05Inst) Key(nd mc.Node) string {
 }
 
 const (
-	wdAmount = 100000
+	wdAmount      = 100000
 	wdAmountLarge = 3_000_000_000
-	wdPrice  = 10
+	wdPrice       = 10
 )
 
 func (in *c05Inst) Menu(nd mc.Node, depth int) []wOp {
@@ -646,6 +646,11 @@ func (in *c05Inst) illFormed(n *wNode, path []wOp) {
 			r.Violate(mc.Violation{Class: "ill-formed-accepted:" + name, Msg: fmt.Sprintf("ill-formed %s accepted in state %v | history: %v", name, n.wd, wPath(p)), Detail: c05Detail{Path: p, Ill: name}}, nil)
 			return
 		}
+		variant := name
+		if i := strings.Index(name, "]:"); i >= 0 {
+			variant = name[:strings.Index(name, "[")] + name[i+1:]
+		}
+		r.Reason(variant, err.Error())
 		if after := in.n.DumpStores(ctx, "bitcoin", "relayer").Hash(); after != base {
 			p := append([]wOp{}, path...)
 			r.Violate(mc.Violation{Class: "state-changed-by-failed-action:" + name, Msg: "store dump changed", Detail: c05Detail{Path: p, Ill: name}}, nil)
